@@ -400,18 +400,25 @@ impl<T> AtomicBucket<T> {
         let mut block_ptr = self.tail.load(Ordering::Acquire, guard);
         #[cfg(metrics_verif)]
         metrics::__verif::point("bucket.clear.tail_loaded");
-        if !block_ptr.is_null()
-            && self
-                .tail
-                .compare_exchange(
-                    block_ptr,
-                    Shared::null(),
-                    Ordering::SeqCst,
-                    Ordering::SeqCst,
-                    guard,
-                )
-                .is_ok()
-        {
+        // Detach whatever the tail is.  If a writer installed a fresh block between our load and the exchange, take that
+        // block instead (it links to the one we saw), rather than silently clearing nothing.
+        let mut detached = false;
+        while !block_ptr.is_null() {
+            match self.tail.compare_exchange(
+                block_ptr,
+                Shared::null(),
+                Ordering::SeqCst,
+                Ordering::SeqCst,
+                guard,
+            ) {
+                Ok(_) => {
+                    detached = true;
+                    break;
+                }
+                Err(e) => block_ptr = e.current,
+            }
+        }
+        if detached {
             #[cfg(metrics_verif)]
             metrics::__verif::point("bucket.clear.detached");
             let backoff = Backoff::new();
